@@ -51,6 +51,18 @@ import (
 
 var errInjected = errors.New("orbverif: injected failure")
 
+// faultResp: an injected failure returns a non-nil zero response next to the error. Go allows it and
+// real servers do it (noble-cctp: `return &types.MsgDepositForBurnResponse{Nonce: nonce}, err`), so
+// callers must decide on the error, never on the response.
+var faultResp bool
+
+func respOr[T any](zero *T) *T {
+	if faultResp {
+		return zero
+	}
+	return nil
+}
+
 // PerAction is the coin an action saw on entry and left on exit.
 type PerAction struct {
 	ID       string `json:"id"`
@@ -168,7 +180,7 @@ func (c cctpWrap) DepositForBurn(ctx context.Context, m *cctptypes.MsgDepositFor
 		Amt: capInt(m.Amount), Denom: m.BurnToken, Dom: int64(m.DestinationDomain),
 		Mint: c.i.w.nameOfBytes(m.MintRecipient), Caller: "NONE", Tok: "NONE", Rcp: "NONE", Hook: "NONE", Meta: "NONE", To: "NONE", Mfd: "NONE", Full: true})
 	if c.i.fail("cctpBurn") {
-		return nil, errInjected
+		return respOr(&cctptypes.MsgDepositForBurnResponse{}), errInjected
 	}
 	return c.real.DepositForBurn(ctx, m)
 }
@@ -179,7 +191,7 @@ func (c cctpWrap) DepositForBurnWithCaller(ctx context.Context, m *cctptypes.Msg
 		Mint: c.i.w.nameOfBytes(m.MintRecipient), Caller: c.i.w.nameOfCaller(m.DestinationCaller),
 		Tok: "NONE", Rcp: "NONE", Hook: "NONE", Meta: "NONE", To: "NONE", Mfd: "NONE", Full: true})
 	if c.i.fail("cctpBurn") {
-		return nil, errInjected
+		return respOr(&cctptypes.MsgDepositForBurnWithCallerResponse{}), errInjected
 	}
 	return c.real.DepositForBurnWithCaller(ctx, m)
 }
@@ -187,9 +199,9 @@ func (c cctpWrap) DepositForBurnWithCaller(ctx context.Context, m *cctptypes.Msg
 func (c cctpWrap) ReplaceDepositForBurn(ctx context.Context, m *cctptypes.MsgReplaceDepositForBurn) (*cctptypes.MsgReplaceDepositForBurnResponse, error) {
 	c.i.reqs = append(c.i.reqs, Req{Route: "CCTP_REPLACE", From: c.i.w.nameOfAddr(m.From),
 		Mint: c.i.w.nameOfBytes(m.NewMintRecipient), Caller: c.i.w.nameOfCaller(m.NewDestinationCaller),
-		Tok: string(m.OriginalMessage), Rcp: string(m.OriginalAttestation), Hook: "NONE", Meta: "NONE", To: "NONE", Denom: "NONE", Mfd: "NONE", Full: true})
+		Tok: nameOfOrig(m.OriginalMessage), Rcp: string(m.OriginalAttestation), Hook: "NONE", Meta: "NONE", To: "NONE", Denom: "NONE", Mfd: "NONE", Full: true})
 	if c.i.fail("cctpReplace") {
-		return nil, errInjected
+		return respOr(&cctptypes.MsgReplaceDepositForBurnResponse{}), errInjected
 	}
 	return c.real.ReplaceDepositForBurn(ctx, m)
 }
@@ -201,7 +213,7 @@ type hypWrap struct {
 
 func (h hypWrap) Token(ctx context.Context, q *warptypes.QueryTokenRequest) (*warptypes.QueryTokenResponse, error) {
 	if h.i.fail("hypToken") {
-		return nil, errInjected
+		return respOr(&warptypes.QueryTokenResponse{}), errInjected
 	}
 	return h.real.Token(ctx, q)
 }
@@ -220,7 +232,7 @@ func (h hypWrap) RemoteTransfer(ctx context.Context, m *warptypes.MsgRemoteTrans
 		Rcp: h.i.w.nameOfBytes(m.Recipient.Bytes()), Hook: hook, Gas: capInt(m.GasLimit),
 		MaxFee: capInt(m.MaxFee.Amount), Mfd: m.MaxFee.Denom, Meta: meta, Mint: "NONE", Caller: "NONE", To: "NONE", Full: true})
 	if h.i.fail("hypTransfer") {
-		return nil, errInjected
+		return respOr(&warptypes.MsgRemoteTransferResponse{}), errInjected
 	}
 	return h.real.RemoteTransfer(ctx, m)
 }
@@ -241,7 +253,7 @@ func (s intWrap) Send(ctx context.Context, m *banktypes.MsgSend) (*banktypes.Msg
 	}
 	s.i.reqs = append(s.i.reqs, rq)
 	if s.i.fail("intSend") {
-		return nil, errInjected
+		return respOr(&banktypes.MsgSendResponse{}), errInjected
 	}
 	return s.real.Send(ctx, m)
 }
